@@ -158,19 +158,19 @@ def _impl(tier, seed, search):
                 inp = dict(cls=c, m=m, first_value_integer=int_first)
                 methods = {}
                 if c in ('SO2', 'SE2', 'SO3', 'SE3'):
-                    methods = {'inv': lambda Z: Z.inv(), 'R': lambda Z: Z.R, 'det': lambda Z: Z.det(), '**2': lambda Z: Z ** 2, '**-1': lambda Z: Z ** -1,
+                    methods = {'inv': lambda Z: Z.inv(), 'R': lambda Z: Z.R, 'det': lambda Z: Z.det(), '**2': lambda Z: Z ** 2, '**-1': lambda Z: Z ** -1, '**0': lambda Z: Z ** 0, '**1': lambda Z: Z ** 1, '**3': lambda Z: Z ** 3, '**-2': lambda Z: Z ** -2,
                                'log': lambda Z: Z.log(), 'norm': lambda Z: Z.norm(),
                                'interp(0.3)': lambda Z: Z.interp(0.3), 'interp(0)': lambda Z: Z.interp(0), 'interp(1)': lambda Z: Z.interp(1), 'interp(0.0)': lambda Z: Z.interp(0.0)}
                     if c in ('SE2', 'SE3'): methods['t'] = lambda Z: Z.t
                     if c in ('SO3', 'SE3'): methods.update({'eul': lambda Z: Z.eul(), 'rpy': lambda Z: Z.rpy(), 'angvec': lambda Z: Z.angvec(),
                                                             'rpy(xyz)': lambda Z: Z.rpy(order='xyz'), 'rpy(yxz)': lambda Z: Z.rpy(order='yxz'), 'rpy(deg)': lambda Z: Z.rpy(unit='deg'),
-                                                            'eul(deg)': lambda Z: Z.eul(unit='deg'), 'eul(flip)': lambda Z: Z.eul(flip=True), 'angvec(deg)': lambda Z: Z.angvec(unit='deg')})
+                                                            'eul(deg)': lambda Z: Z.eul(unit='deg'), 'eul(flip)': lambda Z: Z.eul(flip=True), 'eul(flip,deg)': lambda Z: Z.eul(unit='deg', flip=True), 'angvec(deg)': lambda Z: Z.angvec(unit='deg')})
                     if c in ('SO2', 'SE2'): methods.update({'theta': lambda Z: Z.theta(), 'theta(deg)': lambda Z: Z.theta(unit='deg')})
                     if c == 'SE2': methods['xyt'] = lambda Z: Z.xyt()
                     p = g.normal(size=2 if c in ('SO2', 'SE2') else 3)
                     methods['*point'] = lambda Z: Z * p
                 elif c in ('Quaternion', 'UnitQuaternion'):
-                    methods = {'conj': lambda Z: Z.conj(), 'norm': lambda Z: Z.norm(), 's': lambda Z: Z.s, 'v': lambda Z: Z.v, 'vec': lambda Z: Z.vec, '**2': lambda Z: Z ** 2, '**-1': lambda Z: Z ** -1}
+                    methods = {'conj': lambda Z: Z.conj(), 'norm': lambda Z: Z.norm(), 's': lambda Z: Z.s, 'v': lambda Z: Z.v, 'vec': lambda Z: Z.vec, '**2': lambda Z: Z ** 2, '**-1': lambda Z: Z ** -1, '**0': lambda Z: Z ** 0, '**3': lambda Z: Z ** 3}
                     if c == 'UnitQuaternion':
                         methods.update({'inv': lambda Z: Z.inv(), 'R': lambda Z: Z.R, 'rpy': lambda Z: Z.rpy(), 'eul': lambda Z: Z.eul(),
                                         'rpy(xyz)': lambda Z: Z.rpy(order='xyz'), 'rpy(deg)': lambda Z: Z.rpy(unit='deg'), 'eul(deg)': lambda Z: Z.eul(unit='deg'), '*point': (lambda p_: lambda Z: Z * p_)(g.normal(size=3))})
@@ -220,6 +220,29 @@ def _impl(tier, seed, search):
                             if G[i].shape != W[i].shape or not np.allclose(G[i], W[i], rtol=1e-12, atol=1e-12, equal_nan=True):
                                 L.fail(f'per-value-element:{c}.{mn}', f'{c}.{mn} on {m} values{(" after an in-place edit (" + phase + ")") if phase else ""}: result {i} differs from the method applied to element {i}', dict(inp, method=mn, after=phase), observed=repr(G[i])[:100], required=repr(W[i])[:100])
                                 break
+    # one twist with several angles (1 x M): motion k is exp(theta_k S), for prismatic, revolute, screw and general twists, in both units
+    from spatialmath import Twist3 as _T3, Twist2 as _T2
+    for rep_ in range(3 if tier == 'quick' else 30):
+        ax_ = inputs.unit_axis(g); tws_ = {'prismatic': _T3(np.r_[ax_ * float(g.uniform(0.5, 2)), 0, 0, 0]), 'revolute': _T3.Revolute(ax_, g.normal(size=3)), 'screw': _T3(np.r_[g.normal(size=3), ax_]), 'general': _T3(g.normal(size=6)),
+                                          'prismatic2': _T2(np.r_[g.normal(size=2), 0]), 'revolute2': _T2.Revolute(g.normal(size=2)), 'general2': _T2(g.normal(size=3))}
+        for kn_, S_ in tws_.items():
+            for M_ in (2, 3):
+                ths_ = [float(g.uniform(-2, 2)) for _ in range(M_)]
+                for un_ in ('rad', 'deg'):
+                    arg_ = ths_ if un_ == 'rad' else [math.degrees(t_) for t_ in ths_]
+                    if un_ == 'deg' and kn_.startswith('prismatic'): continue
+                    inp = dict(twist=kn_, thetas=ths_, units=un_)
+                    L.count('twist-exp-1xM', key=(kn_, M_, un_)); L.sample('twist-exp-1xM', inp)
+                    try: want_ = [np.asarray(S_.exp(t_).A, float) for t_ in ths_]
+                    except Exception: continue
+                    for fm_, mk_ in (('list', list), ('array', np.array), ('tuple', tuple)):
+                        try: got_ = S_.exp(mk_(arg_), units=un_) if un_ == 'deg' else S_.exp(mk_(arg_))
+                        except Exception as e:
+                            L.fail(f'per-value-raises:{type(S_).__name__}.exp(1xM)', f'{type(S_).__name__}.exp({fm_} of {M_} angles) on a {kn_} twist raised {type(e).__name__}', dict(inp, form=fm_)); continue
+                        if len(got_) != M_: L.fail(f'per-value-count:{type(S_).__name__}.exp(1xM)', f'{type(S_).__name__}.exp of {M_} angles gives {len(got_)} motions', dict(inp, form=fm_)); continue
+                        for k_ in range(M_):
+                            if not np.allclose(np.asarray(got_.data[k_], float), want_[k_], rtol=0, atol=1e-12 * max(1.0, float(np.max(np.abs(want_[k_]))))):
+                                L.fail(f'per-value-element:{type(S_).__name__}.exp(1xM)', f'{type(S_).__name__}.exp({fm_} of angles) on a {kn_} twist: motion {k_} is not exp(theta_{k_} S)', dict(inp, form=fm_, k=k_)); break
     # == and != on sequences decide each pair exactly as the single-valued operator does — also for nearly equal values
     for c in CL:
         cls, one = CL[c]
